@@ -166,6 +166,9 @@ def _parse_ops(ops):
     return spec, qs
 
 
+_LAST = {}
+
+
 def _build(np, spec, exact):
     """Construct the real CellList from a spec. exact: ints/2^S ; else floats."""
     from biotite.structure import CellList
@@ -173,13 +176,19 @@ def _build(np, spec, exact):
         sc = 2.0 ** (-spec["S"])
         coords = np.array(spec["coords"], dtype=np.float64).reshape(-1, 3) * sc
         cs = spec["cs"] * sc
-        box = None if spec["box"] is None else np.diag(np.array(spec["box"], dtype=np.float64) * sc).astype(np.float32)
+        if spec["box"] is None:
+            box = None
+        elif len(spec["box"]) == 9:     # full matrix (signed permutation of an orthorhombic box), row = box vector
+            box = (np.array(spec["box"], dtype=np.float64).reshape(3, 3) * sc).astype(np.float32)
+        else:
+            box = np.diag(np.array(spec["box"], dtype=np.float64) * sc).astype(np.float32)
     else:
         coords = np.array(spec["coords"], dtype=np.float64).reshape(-1, 3)
         cs = spec["cs"]
         box = None if spec["box"] is None else np.array(spec["box"], dtype=np.float32)
     coords = coords.astype(np.float32)
     sel = None if spec["sel"] is None else np.array(spec["sel"], dtype=bool)
+    _LAST["sel"] = sel
     return CellList(coords, cs, periodic=box is not None, box=box, selection=sel), coords, box
 
 
@@ -240,28 +249,48 @@ def _show(rows, single):
     return "ok m " + ";".join(_ints(r) for r in rows)
 
 
-def _query(np, cl, q, n, periodic, exact, S=0):
-    """Run one query op on the real cell list -> rows (list of sorted lists) or 'BAD…'; raises on error."""
+def _query(np, cl, q, n, periodic, exact, S=0, wide=False, issues=None):
+    """Run one query op on the real cell list -> rows (list of sorted lists) or 'BAD…'; raises on error.
+
+    wide: pass float64 coordinates / float64 (int64) radii instead of float32 (int32).
+    issues: if a list, the call is repeated with the *same* argument arrays; every array argument must be
+    bit-identical afterwards and the second answer must equal the first (appends (kind, message))."""
     sc = 2.0 ** (-S) if exact else 1.0
     if q["op"] == "adj":
         m = cl.create_adjacency_matrix(q["thr"] * sc)
         if m.shape != (n, n):
             return "BAD:shape"
+        if issues is not None:
+            m2 = cl.create_adjacency_matrix(q["thr"] * sc)
+            if not np.array_equal(m, m2):
+                issues.append(("repeated-query-differs", f"create_adjacency_matrix({q['thr'] * sc}) called twice gives different matrices"))
         return _rows_from_mask(np, m, False, n)
     pts = np.array(q["q"], dtype=np.float64).reshape(-1, 3) * sc
-    pts = pts.astype(np.float32)
+    pts = pts.astype(np.float64 if wide else np.float32)
     single = q["shape"] == "s"
     if single:
         pts = pts[0]
+    as_mask = q["mode"] == "mask"
     if q["op"] == "atoms":
         rad = q["rad"] * sc if q["rad_kind"] == "s" else np.array(q["rad"], dtype=np.float64) * sc
         if q["rad_kind"] == "m":
-            rad = rad.astype(np.float32)
-        res = cl.get_atoms(pts, rad, as_mask=(q["mode"] == "mask"))
+            rad = rad.astype(np.float64 if wide else np.float32)
+        fn = cl.get_atoms
     else:
-        rad = int(q["rad"]) if q["rad_kind"] == "s" else np.array(q["rad"], dtype=np.int32)
-        res = cl.get_atoms_in_cells(pts, rad, as_mask=(q["mode"] == "mask"))
-    if q["mode"] == "mask":
+        rad = int(q["rad"]) if q["rad_kind"] == "s" else np.array(q["rad"], dtype=np.int64 if wide else np.int32)
+        fn = cl.get_atoms_in_cells
+    snaps = [(name, a, a.tobytes()) for name, a in (("query coordinates", pts), ("radius array", rad)) if isinstance(a, np.ndarray)]
+    res = fn(pts, rad, as_mask=as_mask)
+    if issues is not None:
+        for name, a, b in snaps:
+            if a.tobytes() != b:
+                issues.append(("caller-array-modified", f"{q['op']} overwrote the caller's {name} ({a.dtype}): now {a.tolist()}"[:300]))
+        res2 = fn(pts, rad, as_mask=as_mask)
+        if not np.array_equal(np.asarray(res), np.asarray(res2)):
+            issues.append(("repeated-query-differs", f"{q['op']} with the same argument arrays ({pts.dtype} coordinates, "
+                           f"{getattr(rad, 'dtype', type(rad).__name__)} radii) answers differently the second time: "
+                           f"{np.asarray(res).tolist()} vs {np.asarray(res2).tolist()}"[:400]))
+    if as_mask:
         return _rows_from_mask(np, res, single, n)
     return _rows_from_idx(np, res, single, n, periodic)
 
@@ -299,6 +328,9 @@ def _exact_sets(spec, q):
     n = len(coords)
     sel = spec["sel"] if spec["sel"] is not None else [True] * n
     box = spec["box"]
+    if box is not None and len(box) == 9:
+        # rows are axis-parallel vectors: same lattice as the axis-aligned box with these per-axis lengths
+        box = [sum(abs(box[3 * i + a]) for i in range(3)) for a in range(3)]
 
     def d2(a, p):
         t = 0
@@ -376,7 +408,44 @@ def _float_bounds(np, coords32, box, sel, q):
         row_sel = selv if q["op"] != "adj" else (selv & selv[i])
         req.append([int(j) for j in np.nonzero(row_sel & (dist[i] < r - band))[0]])
         allowed.append([int(j) for j in np.nonzero(row_sel & (dist[i] <= r + band))[0]])
-    return req, allowed
+    return req, allowed, dist, rads
+
+
+def _geometry_disagreement(np, coords32, box, sel, q, rows, dist, rads, tag):
+    """Second real code path: biotite's own minimum-image distances (geometry.distance / index_distance with the box),
+    thresholded, must equal the periodic cell-list result; the brute-force lattice distances `dist` arbitrate."""
+    import biotite.structure as struc
+    n = len(coords32)
+    selv = np.ones(n, bool) if sel is None else np.array(sel, bool)
+    if q["op"] == "adj":
+        pairs = np.stack([np.repeat(np.arange(n), n), np.tile(np.arange(n), n)], axis=-1)
+        g = np.asarray(struc.index_distance(coords32, pairs, periodic=True, box=box), dtype=np.float64).reshape(n, n)
+        P_n = n
+    else:
+        P = np.array(q["q"], dtype=np.float64).reshape(-1, 3).astype(np.float32)
+        P_n = len(P)
+        g = np.stack([np.asarray(struc.distance(P[i], coords32, box=box), dtype=np.float64) for i in range(P_n)])
+    for i in range(P_n):
+        if not np.isfinite(g[i]).all() and not np.isfinite(dist[i]).all():
+            continue
+        r = rads[i]
+        band = 1e-4 * r
+        row = set(rows[i])
+        for j in range(n):
+            if not selv[j] or (q["op"] == "adj" and not selv[i]):
+                continue
+            if abs(dist[i][j] - r) <= band or abs(g[i][j] - r) <= band:
+                continue
+            in_cl = j in row
+            in_geo = bool(g[i][j] <= r)
+            if in_cl != in_geo:
+                truth = bool(dist[i][j] <= r)
+                side = "geometry-wrong" if truth == in_cl else "celllist-wrong"
+                return [(f"C14/{q['op']}/periodic/differs-from-geometry-distance/{side}",
+                         f"{q['op']} query {i}, atom {j}, radius {r}: cell list says {in_cl}, thresholded "
+                         f"geometry distance(box=box) = {g[i][j]:.6g} says {in_geo}; brute-force minimum image {dist[i][j]:.6g} "
+                         f"(box {np.asarray(box).tolist()})")]
+    return []
 
 
 def _overflow_possible(spec_n, periodic, cs, q):
@@ -414,6 +483,11 @@ def _oracle_body(case):
     valid = case.get("valid", True)
     try:
         cl, coords32, box = _build(np, spec, exact)
+        ctor_snap = [("coordinates", coords32, coords32.tobytes())]
+        if box is not None:
+            ctor_snap.append(("box", box, box.tobytes()))
+        if _LAST.get("sel") is not None:
+            ctor_snap.append(("selection mask", _LAST["sel"], _LAST["sel"].tobytes()))
     except Exception as e:  # noqa: BLE001
         if valid:
             v.append((f"C14/new/unexpected-{type(e).__name__}", f"constructor raised {type(e).__name__}: {e} on valid input {spec}"))
@@ -433,8 +507,9 @@ def _oracle_body(case):
             continue
         qq = dict(q, cs=cs_f)
         tag = f"{q['op']}/{q.get('mode', 'mask')}/{'periodic' if box is not None else 'plain'}"
+        issues = []
         try:
-            rows = _query(np, cl, q, n, box is not None, exact, spec.get("S", 0))
+            rows = _query(np, cl, q, n, box is not None, exact, spec.get("S", 0), issues=issues)
         except Exception as e:  # noqa: BLE001
             qf = dict(q)
             if exact:
@@ -448,9 +523,22 @@ def _oracle_body(case):
             else:
                 v.append((f"C14/{tag}/unexpected-{type(e).__name__}", f"{q} raised {type(e).__name__}: {e}"))
             continue
+        for kind_, msg_ in issues:
+            v.append((f"C14/{q['op']}/{kind_}", msg_))
         if isinstance(rows, str):
             v.append((f"C14/{tag}/malformed-output", f"{q}: {rows}"))
             continue
+        if q["op"] != "adj" and (exact or (q["rad_kind"] == "m")):
+            # float64 coordinates / float64 (int64) radii: arrays untouched, same answer as with float32 input
+            issues_w = []
+            try:
+                rows_w = _query(np, cl, q, n, box is not None, exact, spec.get("S", 0), wide=True, issues=issues_w)
+                for kind_, msg_ in issues_w:
+                    v.append((f"C14/{q['op']}/{kind_}", msg_))
+                if exact and rows_w != rows:
+                    v.append((f"C14/{q['op']}/float64-arguments-differ", f"{q}: float32 args {rows} vs float64 args {rows_w}"))
+            except Exception as e:  # noqa: BLE001
+                v.append((f"C14/{q['op']}/float64-arguments-differ", f"{q} with float64 arguments raised {type(e).__name__}: {e}"))
         if exact:
             want, sup = _exact_sets(spec, q)
             if want is not None and rows != want:
@@ -469,7 +557,9 @@ def _oracle_body(case):
                 if len(rows) != len(sup):
                     v.append((f"C14/{tag}/row-count", f"{q}: {len(rows)} rows for {len(sup)} queries"))
         else:
-            req, allowed = _float_bounds(np, coords32, box, spec["sel"], qq)
+            req, allowed, dist, rads = _float_bounds(np, coords32, box, spec["sel"], qq)
+            if spec.get("geom") and box is not None and q["op"] in ("atoms", "adj") and len(rows) == len(req):
+                v += _geometry_disagreement(np, coords32, box, spec["sel"], q, rows, dist, rads, tag)
             if len(rows) != len(req):
                 v.append((f"C14/{tag}/row-count", f"{q}: {len(rows)} rows for {len(req)} queries"))
                 continue
@@ -506,6 +596,9 @@ def _oracle_body(case):
                     if i not in rows[j]:
                         v.append(("C14/adj/not-symmetric", f"adjacency[{i}][{j}] is True but [{j}][{i}] is False (thr {q['thr']})"))
                         break
+    for name, a, b in ctor_snap:
+        if a.tobytes() != b:
+            v.append(("C14/new/caller-array-modified", f"the caller's {name} array was modified by the cell list"))
     return v
 
 
